@@ -436,6 +436,13 @@ func (r *runner) render(s *siteSet, port int) *liveSet {
 		default:
 			p := certs[certKey(x.Host)]
 			fmt.Fprintf(&b, "\ttls %s %s {\n\t\tno_redirect\n", p.crt, p.key)
+			twoLines := (s.idx+i)%3 == 1 && (x.Proto != "" || x.Ciphers != "" || x.Clients != "")
+			if twoLines {
+				// the same settings spread over two tls lines (certificate in
+				// the first, policy in the second - as with an imported
+				// snippet): a site's settings are those of all its lines
+				fmt.Fprintf(&b, "\t\talpn %s http/1.1\n\t}\n\ttls {\n", s.token(x.Host))
+			}
 			if x.Proto != "" {
 				fmt.Fprintf(&b, "\t\tprotocols %s\n", x.Proto)
 			}
@@ -451,7 +458,11 @@ func (r *runner) render(s *siteSet, port int) *liveSet {
 			default:
 				fmt.Fprintf(&b, "\t\tclients %s\n", r.caPath[policyCA(x.Clients)])
 			}
-			fmt.Fprintf(&b, "\t\talpn %s http/1.1\n\t}\n", s.token(x.Host))
+			if twoLines {
+				b.WriteString("\t}\n")
+			} else {
+				fmt.Fprintf(&b, "\t\talpn %s http/1.1\n\t}\n", s.token(x.Host))
+			}
 		}
 		b.WriteString("}\n")
 	}
